@@ -94,6 +94,13 @@ Mat gen_matrix(unsigned n,int cls,double norm1,uint64_t seed){
     case 9:{ // general complex matrix with zero row sums (non-normal, annihilates the all-ones vector)
       for(unsigned i=0;i<n;i++){ cplx sm=0; for(unsigned j=0;j<n;j++) if(j!=i){ A.m[i][j]=rnd(); sm+=A.m[i][j]; } A.m[i][i]=-sm; }
       break; }
+    case 10:{ // square-zero, rank one, |A| not nilpotent: every row is w^T with entries of equal modulus that cancel in pairs, so A*A = 0 exactly and exp(A) = I + A
+      static const cplx zs[4]={cplx(1,0),cplx(-1,0),cplx(0,1),cplx(0,-1)};
+      std::vector<cplx> w(n,cplx(0,0)); for(unsigned j=0;j+1<n;j+=2){ cplx z=zs[r.below(4)]; w[j]=z; w[j+1]=-z; }
+      for(unsigned j=n;j>1;j--){ unsigned k=(unsigned)r.below(j); std::swap(w[j-1],w[k]); }
+      for(unsigned i=0;i<n;i++) for(unsigned j=0;j<n;j++) A.m[i][j]=w[j];
+      double n1=(double)n; if(norm1>0){ int e=(int)std::lround(std::log2(norm1/n1)); A=A.scaled(std::ldexp(1.0,e)); } else if(norm1==0) A=A.scaled(0.0);   // power-of-two scale: the cancellation stays exact
+      return A; }
     default:{ // Hermitian indefinite with small positive part
       for(unsigned i=0;i<n;i++){ A.m[i][i]=cplx(r.uniform(-1,0.3),0); for(unsigned j=i+1;j<n;j++){ cplx z=rnd(); A.m[i][j]=z; A.m[j][i]=std::conj(z); } } break; }
   }
@@ -180,6 +187,8 @@ struct ExpEngine: Engine{
       o["norm"]=norm; o["vs"]=(long long)r.below(100000000);
       o["bitseed"]=(long long)(r.next()>>2); o["bitmode"]=r.chance(0.3)?1:0; o["runmax"]=r.range(1,64); o["repeat"]=r.chance(0.3); o["view"]=r.chance(0.25);
       o["s"]=r.chance(0.5)?r.uniform(-3,3):std::pow(10.0,r.uniform(-3,2.5))*(r.chance(0.5)?1:-1);
+      // square-zero matrices with dense absolute value (class 10), 1-norm 30..4e3, drawn from a stream of their own so that the other plans stay as they were
+      { Rng rb(stream_seed(rs,STREAM_PLAN)^(0x5A0ULL+(uint64_t)i*7919ULL)); if(rb.chance(0.05)){ o["op"]="exp"; o["cls"]=10; o["norm"]=std::pow(10.0,rb.uniform(1.5,3.6)); } }
       ops.push(o);
     }
     p["ops"]=ops; Json sh=Json::array(); sh.push("ops"); p["shrink"]=sh;
@@ -200,7 +209,7 @@ struct ExpEngine: Engine{
       for(size_t i=0;i<ops.size()&&i<32&&out.ok;i++){
         const Json& o=ops[i];
         Call c; c.kind=o["op"].as_str()=="utransform"?1:(o["op"].as_str()=="utransform2"?2:0); c.n=(unsigned)std::max(2LL,std::min(6LL,o["n"].as_int(3)));
-        int cls=(int)(o["cls"].as_int(0)%10); double norm=o["norm"].as_num(1.0); if(!(norm>=0)) norm=1.0; if(norm>1e3) norm=1e3;
+        int cls=(int)(o["cls"].as_int(0)%11); double norm=o["norm"].as_num(1.0); if(!(norm>=0)) norm=1.0; if(norm>(cls==10?4e3:1e3)) norm=(cls==10?4e3:1e3);
         c.bitseed=(uint64_t)o["bitseed"].as_int(1); c.bitmode=(int)(o["bitmode"].as_int(0)&1); c.runmax=(int)std::max(1LL,std::min(64LL,o["runmax"].as_int(8)));
         c.s=o["s"].as_num(1.0); if(!(std::fabs(c.s)<1e3)) c.s=1.0;
         c.view=o["view"].as_bool(false); if(c.view&&c.kind==0) ctr.add("cover_block_view_input");
@@ -248,7 +257,15 @@ struct ExpEngine: Engine{
         // (1) accuracy against the quadruple-precision reference
         QM R=qexp(Aexp);
         double u=1.1102230246251565e-16, fa=fro(Aexp), mu=max_herm_eig(Aexp);
-        if(c.kind==0){
+        if(c.kind==0 && cls==10){
+          // exp(A) = I + A exactly. The conditioning of the exponential at such a matrix is at most (1+|A|)^2 |A| (Frechet derivative: integral of
+          // (I+sA) E (I+(1-s)A)), so an absolute error of 1e3*n*u*(1+|A|_1)^3 is within "a small multiple of u times the conditioning"
+          ctr.add("probe_square_zero_dense_abs");
+          double bound=1e3*c.n*u*std::pow(1+n1,3), worst=0; unsigned wi=0,wj=0;
+          for(unsigned ii=0;ii<c.n;ii++) for(unsigned jj=0;jj<c.n;jj++){ cplx want=Aexp.m[ii][jj]+(ii==jj?cplx(1,0):cplx(0,0)); double e=std::abs(res.X.m[ii][jj]-want); if(!(e<=worst)){ worst=e; wi=ii; wj=jj; } }
+          if(!(worst<=bound)){ char b[300]; snprintf(b,sizeof b,"|X-(I+A)| = %.3g at (%u,%u) exceeds 1e3*n*u*(1+|A|)^3 = %.3g for a matrix with A*A = 0 exactly (n=%u, 1-norm %.6g): exp(A) = I + A",worst,wi,wj,bound,c.n,n1);
+            fail("exp:inaccurate","square-zero",b); break; }
+        }else if(c.kind==0){
           double bound=2e3*c.n*u*(1+fa)*std::exp(mu+1e-12), worst=0; unsigned wi=0,wj=0;
           for(unsigned ii=0;ii<c.n;ii++) for(unsigned jj=0;jj<c.n;jj++){
             double er=std::fabs((double)((q128)res.X.m[ii][jj].real()-R.m[ii][jj].re)),ei=std::fabs((double)((q128)res.X.m[ii][jj].imag()-R.m[ii][jj].im));
